@@ -13,10 +13,14 @@ JOBS="${VERIF_JOBS:-16}"
 GUARD="-DUTAP_VERIF"
 mkdir -p "$B"
 
-XML_CFLAGS="$(xml2-config --cflags)"
-XML_LIBS="$(xml2-config --libs)"
+# the system libxml2, as the repository's own CMake build uses (LIBXML2_INCLUDE_DIR=/usr/include/libxml2); a
+# conda/pyenv xml2-config earlier on PATH would pair foreign headers with the system library
+XML2CFG=/usr/bin/xml2-config
+[ -x "$XML2CFG" ] || XML2CFG=xml2-config
+XML_CFLAGS="$($XML2CFG --cflags)"
+XML_LIBS="$($XML2CFG --libs)"
 
-libkey=$( (cd "$REPO" && cat src/*.cpp src/*.h src/*.hpp src/*.y src/*.l include/utap/*; echo "$GUARD v3") | sha256sum | cut -c1-16)
+libkey=$( (cd "$REPO" && cat src/*.cpp src/*.h src/*.hpp src/*.y src/*.l include/utap/*; echo "$GUARD v4 $XML_CFLAGS") | sha256sum | cut -c1-16)
 simkey=$( (cat "$V"/sim/*.cpp "$V"/sim/*.h "$V"/build.sh; echo "$libkey") | sha256sum | cut -c1-16)
 LIB="$B/lib-$libkey"
 BIN="$B/bin-$simkey"
